@@ -39,7 +39,8 @@ namespace net
     O_N8_LRA = 1u << 13,
     O_N8_DL = 1u << 14,
     O_N8_OV = 1u << 15,
-    O_X = 1u << 16 // unexpected exception from the API
+    O_X = 1u << 16, // unexpected exception from the API
+    O_N9_DL = 1u << 17 // DL: every hop of the stored shortest-path trees is an enforced constraint of exactly that weight (what explanations walk)
   };
 
   struct Violation
@@ -194,6 +195,7 @@ namespace net
     void check_n3();
     void check_pending_clauses();
     void check_dl(int th);
+    void check_dl_tree(int th);
     void check_ov();
     void check_lra();
     void check_snapshots(size_t level_before);
